@@ -159,6 +159,9 @@ def _check(world: World, host: AppHost, session: Session, out: Outcome) -> None:
         stuck = [i for r in plan.reqs for i in by_tag.get(r.tag, [])
                  if len(i.leftover) >= cfg.max_app_queue_size]
         cause = "recv-queue-full" if stuck else "other"
+        if any(str(i.end) == "raised:BusyResourceError" for r in plan.reqs for i in by_tag.get(r.tag, [])):
+            # trio only: the reader closing the connection collided with the application's last write
+            cause = "trio-close-race"
         if parser.error:
             bad("wire-wellformed", f"conn {plan.index}: response stream does not parse: {parser.error}")
             continue
